@@ -260,6 +260,47 @@ def r3_r4_r5(ctx):
     ctx.check(not others, 'R5', 'single-attribution-function', others[0] if others else '', 'no other script->address conversion exists in the canister', 'other conversions: %s' % [c.where() for c in others])
 
 
+def utxo_order(prog):
+    """Shape of `Ord for Utxo` as a lexicographic chain: {'fn', 'height_desc', 'lexicographic',
+    'components': [(what, how)]} with what in outpoint|txid|vout|value|? and how in
+    derived|num|le|be (byte order in which a vout is compared)."""
+    c = prog.fn('<ic_btc_canister::types::Utxo as core::cmp::Ord>::cmp', required=False)
+    if c is None:
+        return None
+    rows = table(prog, c)
+    H = P.call('*::cmp', P.field('height', P.param('self')), P.field('height', P.param('other')))
+    g1 = [r for r in rows if P.agg(variant='Greater')(r[1]) and P.exactly(r[2], [P.is_(H, 'Less')])]
+    g2 = [r for r in rows if P.agg(variant='Less')(r[1]) and P.exactly(r[2], [P.is_(H, 'Greater')])]
+    rest = [r for r in rows if r not in g1 and r not in g2]
+    rest.sort(key=lambda r: len(r[2]))
+    comps, lex = [], bool(rest)
+    prev = []
+    for i, r in enumerate(rest):
+        e = r[1]
+        conds = list(r[2])
+        last = i == len(rest) - 1
+        want = [P.is_(H, 'Equal')] + [P.is_(lambda x, q=q: x == q, 'Equal') for q in prev]
+        if not last:
+            want.append(lambda k, e=e: k[0] == 'is' and k[1] == e and set(k[2]) == {'Greater', 'Less'})
+        lex = lex and len(conds) == len(want) and all(any(w(k) for k in conds) for w in want)
+
+        def side(x, who):
+            return P.has(P.param(who))(x)
+        what, how = '?', '?'
+        if isinstance(e, tuple) and e[0] == 'call' and e[1].endswith('::cmp') and len(e[2]) == 2 and side(e[2][0], 'self') and side(e[2][1], 'other'):
+            a, b = e[2]
+            for nm, pa in (('outpoint', P.field('outpoint', P.param())), ('txid', P.field('txid', P.field('outpoint', P.param()))),
+                           ('vout', P.field('vout', P.field('outpoint', P.param()))), ('value', P.field('value', P.param()))):
+                if pa(a) and pa(b):
+                    what, how = nm, ('derived' if nm == 'outpoint' else 'num')
+                for fn_, tag in (('core::num::to_le_bytes', 'le'), ('core::num::to_be_bytes', 'be')):
+                    if P.call(fn_, pa)(a) and P.call(fn_, pa)(b):
+                        what, how = nm, tag
+        comps.append((what, how))
+        prev.append(e)
+    return {'fn': c, 'height_desc': len(g1) == 1 and len(g2) == 1, 'lexicographic': lex, 'components': comps}
+
+
 def r6(ctx):
     prog = ctx.prog
     f = prog.fn('<u32 as ic_btc_canister::types::Storable>::to_bytes', required=False)
@@ -274,20 +315,15 @@ def r6(ctx):
             rr = ex(prog, k).local(0)
             okx = okx or P.binop('BitXor', P.anything, P.const(255))(rr)
         ctx.check(okbe and okx, 'R6', 'height-encoder', f, 'Height key bytes = big endian XOR 0xff (descending height order)', 'height encoder: %s' % show(r)[:200])
-    c = prog.fn('<ic_btc_canister::types::Utxo as core::cmp::Ord>::cmp', required=False)
-    if c is None:
+    uo = utxo_order(prog)
+    if uo is None:
         ctx.unknown('R6', 'utxo-order', '', 'Ord for Utxo not found')
     else:
-        ctx.touch(c)
-        rows = table(prog, c)
-        H = P.call('*::cmp', P.field('height', P.param('self')), P.field('height', P.param('other')))
-        O = P.call('*::cmp', P.field('outpoint', P.param('self')), P.field('outpoint', P.param('other')))
-        V = P.call('*::cmp', P.field('value', P.param('self')), P.field('value', P.param('other')))
-        g1 = [r for r in rows if P.agg(variant='Greater')(r[1]) and P.exactly(r[2], [P.is_(H, 'Less')])]
-        g2 = [r for r in rows if P.agg(variant='Less')(r[1]) and P.exactly(r[2], [P.is_(H, 'Greater')])]
-        g3 = [r for r in rows if V(r[1]) and P.exactly(r[2], [P.is_(H, 'Equal'), P.is_(O, 'Equal')])]
-        g4 = [r for r in rows if O(r[1]) or P.named('other')(r[1])]
-        ctx.check(len(g1) == 1 and len(g2) == 1 and len(g3) == 1 and len(rows) == 4, 'R6', 'utxo-order', c, 'Ord for Utxo: height descending, then outpoint, then value', 'Utxo::cmp table: %s' % describe_table(rows))
+        ctx.touch(uo['fn'])
+        comps = [c[0] for c in uo['components']]
+        good = uo['height_desc'] and uo['lexicographic'] and comps in (['outpoint', 'value'], ['txid', 'vout', 'value'])
+        ctx.check(good, 'R6', 'utxo-order', uo['fn'], 'Ord for Utxo: height descending, then outpoint (txid, vout), then value',
+                  'Utxo::cmp: height descending=%s, lexicographic chain=%s, components=%s' % (uo['height_desc'], uo['lexicographic'], uo['components']))
     rn = ctx.fn('R6', T + 'AddressUtxoRange::new')
     if rn:
         e = ex(prog, rn)
